@@ -65,7 +65,10 @@ P = {
          'arbitrary universe of task objects of arbitrarily many chains/configs/processes on one data directory: history_sound — over '
          'every operation history of any length, if equal location implies equal computation and the initial store is good (e.g. '
          'empty), every value ever returned equals the semantic value of the requested computation (computed, in memory or loaded), '
-         'and the invariant survives failures; the necessity of the location hypothesis is proved by a counterexample. '
+         'and the invariant survives failures; the necessity of the location hypothesis is proved by a counterexample; the hypothesis itself '
+         'is discharged by same_key_same_computation (via C03.merkle): in chains satisfying the decidable predicate WFChain — evaluated by '
+         'the driver on every chain the real code builds in a run — equal keys imply the same computation at every depth, hence equal '
+         'semantic values for every semantics that is a function of persisted parameters and input values. '
          'Correspondence: random histories (requests, failures, forcing, simulated and real interpreter restarts, contexts, double '
          'mounting) on the real code vs the model per operation, plus a reference provenance term computed from the config tree.',
     note='partial: the hypothesis LocDeterminesComp is discharged by C02/C03 only outside findings K1/K3 (K3 in-domain here and reported as '
